@@ -216,9 +216,6 @@ impl<T: Qcow2IoOps> Qcow2Dev<T> {
         let mut len = buf.len();
         let old_offset = offset;
         let old_len = len;
-        let single =
-            (offset >> info.cluster_bits()) == ((offset + (len as u64) - 1) >> info.cluster_bits());
-
         if offset >= vsize {
             if !info.is_back_file() {
                 return Err("read_at eof".into());
@@ -263,6 +260,12 @@ impl<T: Qcow2IoOps> Qcow2Dev<T> {
         let buf = &mut buf[..len];
 
         debug_assert!((len & bs_mask) == 0);
+
+        // evaluated only now: `offset + len` is known to be in range (no
+        // overflow for offsets near u64::MAX) and `len` to be non-zero,
+        // unless clamping left nothing to read
+        let single = len == 0
+            || (offset >> info.cluster_bits()) == ((offset + (len as u64) - 1) >> info.cluster_bits());
 
         let done = if single {
             let l2_entry = self.get_l2_entry(offset).await?;
